@@ -7,7 +7,7 @@ import pyfvtool as pf
 
 from ..oracles import CLASSES, NDIM, SIDES, Geom
 from .. import gen
-from ..common import SpySolver, residual_err, interior_index, nerr, to_list, TOL, digest, cellvar_arrays, absmv
+from ..common import SpySolver, residual_err, interior_index, nerr, to_list, TOL, digest, cellvar_arrays, absmv, solve_with
 from ..bcrel import check_ghosts
 
 ID = 'C12'
@@ -89,12 +89,19 @@ def run_case(case):
         if kind == 'be-residual':
             phi = pf.CellVariable(m, old_vals.copy(), gen.make_bc(pf, m, g, spec))
             nsteps = int(rng.integers(1, 4))
+            wide = bool(rng.random() < 0.4)             # nanosecond ... gigasecond steps, adapted from step to step
+            dt_prev = None
             for step in range(nsteps):
-                dt = float(10 ** rng.uniform(-6, 6))
+                dt = float(10 ** (rng.uniform(-6, 6) if not wide else rng.uniform(-13, 10)))
+                if wide and dt_prev is not None and rng.random() < 0.6:
+                    dt = dt_prev * float(rng.choice([0.5, 2.0, 0.8, 1.25]))
+                dt_prev = dt
+                if wide:
+                    cov['be_wide_dt_steps'] = cov.get('be_wide_dt_steps', 0) + 1
                 alpha, aarr, akind = alpha_of(rng, m, g)
                 old = np.array(phi.value, copy=True)
                 spy = SpySolver()
-                pf.solvePDE(phi, [pf.transientTerm(phi, dt, alpha)] + mats + [bvec], externalsolver=spy)
+                solve_with(pf, spy, phi, [pf.transientTerm(phi, dt, alpha)] + mats + [bvec], default_path=bool(case['seed'][-1] % 2))
                 M, b, x = spy.last
                 if not np.all(np.isfinite(x)):
                     inconclusive = 'singular system'
@@ -215,8 +222,14 @@ def run_case(case):
                     dt = float(10 ** rng.uniform(-2, -0.3)) / nrm
                     rhs_c = -(S @ np.asarray(c_old._value).ravel() - bvec)
                     rhs_r = -(S @ np.asarray(ref._value).ravel() - bvec)
+                    stored = c_old.copy()                 # states kept for later (output, restart) by copy()
+                    stored_full = np.array(np.asarray(c_old._value), copy=True)
                     c = pf.solveExplicitPDE(c_old, dt, rhs_c)
                     c_old.update_value(c)
+                    if not np.array_equal(np.asarray(stored._value), stored_full):
+                        bad.append(('loop/stored-copy-changed', 'explicit loop step %d: a copy() of the old state taken before update_value() changed with it (max change %.3g)' % (
+                            step + 1, float(np.max(np.abs(np.asarray(stored._value) - stored_full))))))
+                        break
                     ref = pf.solveExplicitPDE(ref, dt, rhs_r)
                     sc = float(np.max(np.abs(np.asarray(ref._value)))) + 1e-300
                     d = float(np.max(np.abs(np.asarray(c_old._value) - np.asarray(ref._value)))) / sc
@@ -356,7 +369,7 @@ KINDS = ['be-residual', 'fixed-point', 'limits', 'explicit', 'consistency', 'loo
 
 
 def plan(tier, seed):
-    per = 5 if tier == 'quick' else 120
+    per = 10 if tier == 'quick' else 150
     chunks = []
     for ci, cls in enumerate(CLASSES):
         cases = []
@@ -378,7 +391,7 @@ def floors(agg, tier):
             if agg['cov'].get('kind:%s:%s' % (kind, cls), 0) < 4:
                 out.append('kind:%s:%s < 4' % (kind, cls))
     for k, need in (('be_steps', 50), ('fixed_point_steps', 40), ('limit_inf', 15), ('limit_zero', 15), ('explicit_steps', 50), ('consistency', 15),
-                    ('alpha:scalar', 5), ('alpha:ndarray', 5), ('alpha:cellvar', 5), ('with_periodic', 10), ('loop:explicit-update', 15), ('loop:mixed', 15), ('loop_steps', 40)):
+                    ('alpha:scalar', 5), ('alpha:ndarray', 5), ('alpha:cellvar', 5), ('with_periodic', 10), ('loop:explicit-update', 15), ('loop:mixed', 15), ('loop_steps', 40), ('be_wide_dt_steps', 20)):
         if agg['cov'].get(k, 0) < need:
             out.append('%s < %d' % (k, need))
     return out
